@@ -60,6 +60,11 @@ def respell(rnd, name, text, how):
         i, hdr = rnd.choice(bs)
         body = '\n'.join(lines[:i]) + '\n' + filler(rnd, int(size), kind) + '\n'.join(lines[i:]) + '\n'
         return {'src/' + name: body}
+    if how == 'link':
+        # the unit file is a symbolic link to a file of ANOTHER name kept outside the search directories: a link to a file is that
+        # file, known by the link's name (its type, its service name, the name other units refer to it by)
+        other_ext = 'volume' if ext != 'volume' else 'container'
+        return {f'store/real-{sum(map(ord, name)) % 997}.{other_ext}': text, 'src/' + name: ('link', f'../store/real-{sum(map(ord, name)) % 997}.{other_ext}')}
     i, hdr = rnd.choice(bs[len(bs) // 3:] or bs)
     main = '\n'.join(lines[:i]) + '\n'
     rest = lines[i:]
@@ -90,7 +95,7 @@ def respell(rnd, name, text, how):
     raise ValueError(how)
 
 
-DROPIN_WAYS = ['dropin', 'dropin', 'two', 'two-dirs', 'two-dirs-rev', 'template-dir']
+DROPIN_WAYS = ['dropin', 'dropin', 'two', 'two-dirs', 'two-dirs-rev', 'template-dir', 'link']
 BIG_WAYS = [f'big:{MiB + 70000}:block', f'big:{MiB + 70000}:line', f'big:{MiB + 4096}:blank', 'big:70000:block', 'big:70000:line',
             f'big:{2 * MiB + 99}:block', 'bigdropin']
 
@@ -102,7 +107,9 @@ def norm(text, base):
 
 
 def run(files):
-    r = e2e.run_case(files, dirs=('src', 'alt'), dry_run=True, keep=True)
+    links = {k: v[1] for k, v in files.items() if isinstance(v, tuple)}
+    files = {k: v for k, v in files.items() if not isinstance(v, tuple)}
+    r = e2e.run_case(files, dirs=('src', 'alt'), dry_run=True, keep=True, symlinks=links)
     base = r['base']
     shutil.rmtree(base, ignore_errors=True)
     printed = {os.path.basename(k): norm(v, base) for k, v in r['printed'].items()}
@@ -161,7 +168,7 @@ def compare(ctx, sets, ways, label, parses=None):
 
 
 def _short(files):
-    return {k: (v if len(v) < 1500 else v[:400] + f'… [{len(v)} bytes] …' + v[-400:]) for k, v in files.items()}
+    return {k: (v if isinstance(v, tuple) or len(v) < 1500 else v[:400] + f'… [{len(v)} bytes] …' + v[-400:]) for k, v in files.items()}
 
 
 def _first_diff(x, y):
